@@ -1077,3 +1077,32 @@ def hoist_walrus(fn) -> int:
                 count += 1
                 break
     return count
+
+
+
+_NEG = {ast.Eq: ast.NotEq, ast.NotEq: ast.Eq, ast.In: ast.NotIn, ast.NotIn: ast.In, ast.Is: ast.IsNot, ast.IsNot: ast.Is}
+
+
+def push_not(fn) -> int:
+    """`not (a in b)` -> `a not in b`, `not (a == b)` -> `a != b`, `not (a is b)` -> `a is not b`, `not not x` in a boolean position is left alone"""
+    count = 0
+
+    class T(ast.NodeTransformer):
+        def visit_UnaryOp(self, n):
+            nonlocal count
+            self.generic_visit(n)
+            if isinstance(n.op, ast.Not) and isinstance(n.operand, ast.Compare) and len(n.operand.ops) == 1 and type(n.operand.ops[0]) in _NEG:
+                c = n.operand
+                c.ops = [_NEG[type(c.ops[0])]()]
+                count += 1
+                return ast.copy_location(c, n)
+            return n
+
+        def visit_FunctionDef(self, n):
+            return n
+
+        visit_AsyncFunctionDef = visit_FunctionDef
+
+    for i, st in enumerate(fn.body):
+        fn.body[i] = T().visit(st)
+    return count
